@@ -365,9 +365,23 @@ func (c *cluster) tplDivergeSnap(rt *rapid.T) {
 			}
 		}
 	}
+	// sometimes the old leader dies inside the installation (snapshot stored, its
+	// conflicting log not yet discarded) and comes back from that image
+	crashPoint := ""
+	if !c.blackbox {
+		crashPoint = []string{"", "", "install.stored", "install.cleared", "snap.retained"}[rapid.IntRange(0, 4).Draw(rt, "crashInInstall")]
+	}
+	if crashPoint != "" {
+		c.step(vAct{A: "crash", N: ldr, S: crashPoint, K: 1, B: rapid.Bool().Draw(rt, "fin")})
+	}
 	c.step(vAct{A: "heal"})
 	for i := 0; i < 4 && !c.failed(); i++ {
 		c.step(vAct{A: "adv", T: 1200})
+	}
+	if n := c.nodes[ldr]; crashPoint != "" && n != nil && n.status == nodeDown {
+		c.stats.class("tpl-divergesnap-crashed-in-install")
+		c.step(vAct{A: "restart", N: ldr})
+		c.step(vAct{A: "adv", T: 2500})
 	}
 	if l := c.anyLeader(); l != 0 {
 		c.burst(rt, l, rapid.IntRange(1, 6).Draw(rt, "after"), 10)
